@@ -54,16 +54,19 @@ vars == <<lay, blk, cow, lock, pc, buf, cbuf, ret, wimg, crashes, inflight, used
 Wr == IF NWriters = 2 THEN {"w1", "w2"} ELSE {"w1"}
 Actors == Readers \cup Wr
 Q == 1..4
-Sig == {lay[1], lay[2], 4}
+SigOf(L) == {L[1], L[2], 4}
+Sig == SigOf(lay)
 
 NilC == [q |-> [j \in Q |-> -2], x |-> "nil"]
-Image(i) == [q |-> [j \in Q |-> IF j \in Sig THEN i ELSE -2], x |-> "none"]
+ImageOf(L, i) == [q |-> [j \in Q |-> IF j \in SigOf(L) THEN i ELSE -2], x |-> "none"]
+Image(i) == ImageOf(lay, i)
 NoCow == [k |-> "none", c |-> NilC]
 NoRet == [res |-> "", val |-> 0, valid |-> TRUE]
 
 Agree(c)  == \A j \in Sig, k \in Sig : c.q[j] = c.q[k]
 Valid(c)  == c.x \in {"none", "baked"} /\ Agree(c)          \* the checksum of c matches
-Decode(c) == IF c.q[lay[1]] = c.q[lay[2]] THEN c.q[lay[1]] ELSE -1   \* value decoded from the slot; -1: mixture
+\* value decoded from the slot; -1: mixture of two images; -9: unknown (bits were flipped somewhere)
+Decode(c) == IF c.x # "none" THEN -9 ELSE IF c.q[lay[1]] = c.q[lay[2]] THEN c.q[lay[1]] ELSE -1
 CowValid  == cow.k = "full" /\ Valid(cow.c)
 \* first p quarters of n over c
 Torn(c, n, p) == [q |-> [j \in Q |-> IF j <= p THEN n.q[j] ELSE c.q[j]], x |-> c.x]
@@ -281,7 +284,10 @@ Strict == LookupIsWhole /\ BlockRecoverable /\ NothingBaked /\ NoServeCorrupt
 
 \* The findings are named actions; the property is checked on behaviours that do not take them.
 ReadIsOldOrNew == (used = {}) => Strict
-\* With CorruptMode = "serve" a corrupt buffer is reachable only through finding (12)
+\* With CorruptMode = "serve" and ONE writer a corrupt buffer is reachable only through finding (12).
+\* (Not so with a second writer: a reader that read the torn block of a dead writer, then lost the race
+\*  against a restarting writer that restored the block and removed the backup, finds no backup and serves
+\*  its stale, unverified buffer - the same defect as C23's, reached without any reader deleting anything.)
 ServeOnlyAfterDeleteFresh == ("servecorrupt" \in used) => ("deletefresh" \in used)
 
 \* what a lookup started in this state by a fresh process and run alone returns
@@ -310,6 +316,6 @@ StateRec == [lay |-> lay, blk |-> blk, cow |-> cow, lock |-> lock,
 LayoutsAll   == {<<1,1>>, <<1,2>>, <<2,2>>, <<3,3>>, <<3,4>>, <<4,4>>}
 LayoutsSmall == {<<1,2>>, <<2,2>>, <<4,4>>}
 AllPrefixes  == 1..3
-EmitState == PrintT(<<"S", ToString(vars), ToJson(StateRec)>>)
-EmitEdge  == PrintT(<<"E", ToString(vars), ToString(vars')>>)
+EmitState == PrintT("S|#|" \o ToString(vars) \o "|#|" \o ToJson(StateRec))
+EmitEdge  == PrintT("E|#|" \o ToString(vars) \o "|#|" \o ToString(vars'))
 =============================================================================
